@@ -218,6 +218,34 @@ class Arrays(Relation):
             c.x[...] = 12345
             ctx.check(np.array_equal(a.x, keepx),
                       'copy | mutating the copy changes the original')
+            # every copy is a new value: a second copy of the same object
+            # is not the first one, and a copy taken after an in-place edit
+            # of the original holds the CURRENT values
+            import copy as _copy
+            for how, mk in (('copy()', lambda o: o.copy()),
+                            ('copy.copy', _copy.copy),
+                            ('copy.deepcopy', _copy.deepcopy)):
+                c1 = mk(a)
+                c2 = mk(a)
+                if how != 'copy.copy':
+                    ctx.check(not np.shares_memory(c1.x, c2.x)
+                              and not np.shares_memory(c1.y, c2.y)
+                              and not np.shares_memory(c2.x, a.x),
+                              f'copy | two {how} copies of one object share '
+                              'memory')
+                ctx.check(np.array_equal(c2.x, keepx)
+                          and np.array_equal(c1.y, a.y),
+                          f'copy | a second {how} copy differs from the '
+                          'original')
+            a.y[...] = a.y + 7
+            ky = np.array(a.y, copy=True)
+            c3 = a.copy()
+            ctx.check(np.array_equal(c3.y, ky) and np.array_equal(c3.x, keepx),
+                      'copy | a copy taken after an in-place edit of the '
+                      'original holds stale values')
+            c3.y[...] = -1
+            ctx.check(np.array_equal(a.y, ky),
+                      'copy | mutating a later copy changes the original')
         ctx.nontrivial(len(sp['sx']) != len(sp['sy']) or 0 in shape
                        or sp['index'] in ('bool', 'intarr', 'tuple',
                                           'ellipsis', 'slice_step'))
